@@ -164,7 +164,7 @@ def _lin_norm(x, ord=None, axis=None, keepdims=False):
         raise Unsupported(f"norm ord={ord}")
     sq = x * x
     s = _np.sum(sq, axis=axis, keepdims=keepdims)
-    return _map(sym_sqrt, s)
+    return _map(lambda e: sym_sqrt(e, nonneg=True), s)       # a sum of squares: the domain condition is trivially met
 
 
 def _det(m):
@@ -629,6 +629,9 @@ class SymMath(types.ModuleType):
 # ---- builtins ------------------------------------------------------------------------------------
 
 def vf_isinstance(x, T):
+    hook = getattr(type(x), "__vf_isinstance__", None)
+    if hook is not None:
+        return hook(x, T)
     if isinstance(x, Sym):
         ts = T if isinstance(T, tuple) else (T,)
         import numbers
